@@ -15,6 +15,90 @@ pub fn run(ctx: &mut Ctx) {
     if part.is_empty() || part == "small" { small(ctx); }
     if part.is_empty() || part == "gen" { generated(ctx); }
     if part.is_empty() || part == "from_iter" { from_iter(ctx); }
+    if part.is_empty() || part == "large" { large(ctx); }
+}
+
+// Multisets big enough for the select structures over the high part to leave their default regime: overfull tiny
+// universes with 10^5+ values (the zeros of `high` form one long select superblock), clustered duplicates far apart
+// (long superblocks for the ones), buckets with hundreds of values and duplicates.
+fn large(ctx: &mut Ctx) {
+    if cfg!(miri) { return; }
+    let cases = ctx.size(5, 40);
+    for c in 0..cases {
+        if !ctx.begin_case() { continue; }
+        let mut rng = ctx.rng(0xC15_900 + c as u64);
+        let snap = mk::probe_snapshot();
+        let (n, pos): (usize, Vec<usize>) = match c % 4 {
+            0 => {
+                // Overfull tiny universe, uneven multiplicities (some values absent).
+                let n = 2 + rng.below(15);
+                let mut pos = Vec::new();
+                for v in 0..n { let k = match rng.below(4) { 0 => 0, 1 => 1 + rng.below(50), 2 => 20000 + rng.below(30000), _ => 1000 + rng.below(9000) }; for _ in 0..k { pos.push(v); } }
+                if pos.len() < 90000 { for _ in 0..100000 { pos.push(n - 1); } }
+                (n, pos)
+            },
+            1 => {
+                // Clusters of duplicates separated by huge gaps.
+                let n = 1usize << (28 + rng.below(30));
+                let mut pos = Vec::new();
+                let mut v = rng.below(1 << 20);
+                for _ in 0..(3 + rng.below(6)) {
+                    let k = match rng.below(3) { 0 => 1 + rng.below(3000), 1 => 4096 + rng.below(200), _ => 30000 + rng.below(170000) };
+                    for _ in 0..k { pos.push(v); }
+                    v = std::cmp::min(n - 1, v + (n / 16) + rng.below(n / 16));
+                }
+                pos.push(n - 1);
+                (n, pos)
+            },
+            2 => {
+                // Crowded buckets: hundreds of values and duplicate runs inside a narrow range, plus a sparse remainder.
+                let n = 1usize << (20 + rng.below(20));
+                let mut pos = Vec::new();
+                let base = rng.below(n / 2);
+                for _ in 0..(2000 + rng.below(4000)) { let v = base + rng.below(600); let k = 1 + if rng.chance(1, 4) { rng.below(150) } else { 0 }; for _ in 0..k { pos.push(v); } }
+                for _ in 0..100000 { pos.push(rng.below(n)); }
+                (n, pos)
+            },
+            _ => {
+                // Every value of a small universe many times, evenly.
+                let n = 1 + rng.below(64);
+                let k = 90000 / n + rng.below(2000);
+                let mut pos = Vec::new();
+                for v in 0..n { for _ in 0..k { pos.push(v); } }
+                (n, pos)
+            },
+        };
+        let mut pos = pos;
+        pos.sort_unstable();
+        let m = SetModel::new(n, pos.clone());
+        // Arguments: around every distinct value (capped), ranks at the edges of every duplicate run, at every 4096th rank ±1, random.
+        let mut distinct: Vec<usize> = pos.clone(); distinct.dedup();
+        let mut around: Vec<usize> = distinct.iter().copied().step_by(std::cmp::max(1, distinct.len() / 400)).collect();
+        around.push(0); around.push(n - 1);
+        let mut args = QArgs::around(&m, &around, true);
+        let mut i = 0;
+        let mut runs_seen = 0;
+        while i < pos.len() {
+            let mut j = i;
+            while j + 1 < pos.len() && pos[j + 1] == pos[i] { j += 1; }
+            if j > i && runs_seen < 600 { runs_seen += 1; for d in 0..2usize { args.ranks.push(i.saturating_sub(d)); args.ranks.push(i + d); args.ranks.push(j.saturating_sub(d)); args.ranks.push(j + d); } }
+            i = j + 1;
+        }
+        let mut r = 4096;
+        while r < pos.len() + 4096 { args.ranks.push(r - 1); args.ranks.push(r); args.ranks.push(r + 1); r += 4096 * (1 + pos.len() / (4096 * 200)); }
+        for _ in 0..300 { args.ranks.push(rng.below(pos.len() + 2)); args.idx.push(rng.below(n)); }
+        let args = args.dedup();
+        let route = c % 3;
+        let sv = match route { 0 => mk::multiset_set(n, &pos), 1 => multiset_builder_set(n, &pos), _ => multiset_extend(n, &pos) };
+        check_multiset(ctx, ["multiset.try_set", "multiset.set", "multiset.extend"][route], sv, &m, &args);
+        if pos[pos.len() - 1] + 1 == n {
+            let r = guard(|| SparseVector::try_from_iter(pos.iter().copied()).map_err(|e| e.to_string())).and_then(|r| r);
+            check_multiset(ctx, "try_from_iter", r, &m, &args);
+        }
+        mk::probe_delta(ctx, "large", &snap);
+        ctx.case(hash64(&[4, n as u64, pos.len() as u64, hash64(&distinct.iter().map(|x| *x as u64).collect::<Vec<u64>>())]), true);
+        ctx.sample(|| format!("large: universe={} values={} distinct={} (overfull={})", n, pos.len(), distinct.len(), pos.len() > n));
+    }
 }
 
 fn opts() -> QOpts { QOpts { zero_side: false, iter_limit: 6000, tail: 4, get: true } }
